@@ -220,6 +220,11 @@ func Run(out string) {
 	runFile(t, "edge-empty", []layout{{"s1", "", 3, 5, 1, 0, true}, {"e2", " nothing", 3, 0, 1, 0, true}}, allRanges)
 	runFile(t, "edge-quote", []layout{{"a\"b", "", 3, 5, 1, 0, true}, {"s2", "", 2, 4, 1, 0, true}}, allRanges)
 	runFile(t, "edge-quote", []layout{{"\"q", " d", 3, 5, 1, 0, true}}, allRanges)
+	// names made of characters that mean something to the readers of delimited text (comment
+	// and separator characters, quotes other than the double quote, non-ASCII)
+	for i, nm := range []string{"#2", "a#b", "a,b", ",c", "'q'", "s;t", "x|y", "\\n", "\u00e9\u00df", "=1", "-", "*"} {
+		runFile(t, "edge-name", []layout{{"s1", "", 3, 5, 1, 0, true}, {nm, "", 2 + i%2, 4, 1 + i%2, 0, true}, {"s3", " d", 3, 2, 1, 0, i%2 == 0}}, allRanges)
+	}
 	// real scale
 	someRanges := func(i, L int) [][3]int {
 		var out [][3]int
